@@ -26,7 +26,8 @@ EXPLANATION = (
     "paired with _done, write refuses after _done; R7 declared size is the constructor's size, flag and field in the same "
     "branch, download() declares len(data) and writes data; R8 multiplexer parameters reach the pack unchanged; R9 stores "
     "only into defined fields of a zero-initialised frame, pad byte 0; R10 response field extraction matches the validated "
-    "response's layout; R11 upload() truncates exactly the entries whose type has a fixed-size codec."
+    "response's layout; R11 upload() truncates exactly the entries whose type has a fixed-size codec; R12 stale responses "
+    "are flushed completely before every request."
 )
 ASSUMPTIONS = [
     "not decided: byte equality for every payload length and chunking; io.BufferedWriter/Reader/TextIOWrapper behaviour",
@@ -133,6 +134,9 @@ def run(chk):
     _declared_size(chk, repo, folder)
     _decode(chk, repo, folder)
     _truncation(chk, repo, folder)
+    # the next transfer's answer must not be a leftover of this one ("an upload returns exactly the bytes the server holds")
+    from . import shared
+    shared.client_flush(chk, "R12")
 
 
 # ---------------------------------------------------------------------------------------------------- R4
